@@ -114,6 +114,17 @@ struct atomic {
     return r;
   }
 
+  // C++20 waiting: `wait(old)` returns once the value differs from `old`.  Under the baton scheduler it is a loop of
+  // announced loads (every re-check is a scheduling point); notify_* have no effect of their own.
+  void
+  wait(T old, std::memory_order mo = kSC) const noexcept
+  {
+    while (load(mo) == old) {
+    }
+  }
+  void notify_one() noexcept {}
+  void notify_all() noexcept {}
+
   static constexpr std::memory_order
   fail_order(std::memory_order s)
   {
@@ -383,6 +394,13 @@ hb_make_shared(Args &&...args)
   return hb_shared_ptr<T>{std::make_shared<T>(std::forward<Args>(args)...)};
 }
 
+template <class T, class A, class... Args>
+hb_shared_ptr<T>
+hb_allocate_shared(const A &a, Args &&...args)
+{
+  return hb_shared_ptr<T>{std::allocate_shared<T>(a, std::forward<Args>(args)...)};
+}
+
 // probe start chosen by the harness for the calling thread (IDManager::GetHeartBeater)
 std::thread::id chosen_thread_id();
 void prepare_thread_ids(int n);
@@ -418,6 +436,12 @@ vshim_make_shared(Args &&...args)
 {
   return ::vshim::hb_make_shared<T>(std::forward<Args>(args)...);
 }
+template <class T, class A, class... Args>
+inline ::vshim::hb_shared_ptr<T>
+vshim_allocate_shared(const A &a, Args &&...args)
+{
+  return ::vshim::hb_allocate_shared<T>(a, std::forward<Args>(args)...);
+}
 namespace this_thread
 {
 inline std::thread::id
@@ -437,6 +461,7 @@ vshim_get_id() noexcept
 #define shared_ptr vshim_shared_ptr
 #define weak_ptr vshim_weak_ptr
 #define make_shared vshim_make_shared
+#define allocate_shared vshim_allocate_shared
 #define get_id vshim_get_id
 #endif
 #define private public
